@@ -18,6 +18,7 @@ import os
 import shutil
 import sys
 import tempfile
+import warnings
 from concurrent.futures import ProcessPoolExecutor
 
 HERE = os.path.dirname(os.path.abspath(__file__))
@@ -42,7 +43,9 @@ def _apply(scratch: str, edits) -> str:
             return f"edit site not found exactly once in {rel} ({s.count(old)} matches)"
         s = s.replace(old, new)
         try:
-            compile(s, rel, "exec")
+            with warnings.catch_warnings():
+                warnings.simplefilter("ignore")
+                compile(s, rel, "exec")
         except SyntaxError as e:
             return f"variant does not compile: {e}"
         open(p, "w").write(s)
